@@ -85,6 +85,16 @@ fn pid_coq(x: &(ShieldedPool, i64)) -> String {
     format!("({}, {})", pool_name(x.0), x.1)
 }
 
+fn changes_coq(cs: &[ChangeValue]) -> String {
+    list(cs.iter().map(|c| {
+        let p = match c.output_pool() {
+            PoolType::Transparent => "CT".to_string(),
+            PoolType::Shielded(p) => format!("(CP {})", pool_name(p)),
+        };
+        format!("({}, {})", p, u64::from(c.value()))
+    }))
+}
+
 // ---------------------------------------------------------------------------------------------
 // recording / adversarial change strategy
 // ---------------------------------------------------------------------------------------------
@@ -184,10 +194,7 @@ impl<S: ChangeStrategy> ChangeStrategy for Rec<S> {
         let mut key: Vec<(ShieldedPool, i64)> = ins.iter().map(|x| x.0).collect();
         key.sort();
         let res = match &r {
-            Ok(b) => {
-                let ch: u64 = b.proposed_change().iter().map(|c| u64::from(c.value())).sum();
-                format!("OBal {} {}", ch, u64::from(b.fee_required()))
-            }
+            Ok(b) => format!("OBal {} {}", changes_coq(b.proposed_change()), u64::from(b.fee_required())),
             Err(ChangeError::InsufficientFunds { required, .. }) => format!("OInsuff {}", u64::from(*required)),
             Err(ChangeError::DustInputs { sapling, orchard, ironwood, .. }) => {
                 let mut d: Vec<(ShieldedPool, i64)> =
@@ -196,7 +203,12 @@ impl<S: ChangeStrategy> ChangeStrategy for Rec<S> {
             }
             Err(_) => "OErr".to_string(),
         };
-        self.log.borrow_mut().push(format!("({}, {})", list(key.iter().map(pid_coq)), res));
+        self.log.borrow_mut().push(format!(
+            "({}, {}, {})",
+            u32::from(anchor_height),
+            list(key.iter().map(pid_coq)),
+            res
+        ));
         r
     }
 }
@@ -284,6 +296,7 @@ fn dump(st: &St, accts: &[AccountUuid]) -> Dump {
     for (pool, pfx, idx) in [
         (ShieldedPool::Sapling, "sapling", "output_index"),
         (ShieldedPool::Orchard, "orchard", "action_index"),
+        (ShieldedPool::Ironwood, "ironwood", "action_index"),
     ] {
         let mut stmt = conn
             .prepare(&format!(
@@ -421,7 +434,12 @@ struct H {
     pending: Vec<TxId>,
     stats: BTreeMap<String, u64>,
     ncases: usize,
+    /// NU6.3 (Ironwood) active from the first block; ZIP 318 grid of GRID blocks
+    nu63: bool,
 }
+
+const GRID: u32 = 12;
+const ACTIVATION: u32 = 100_000;
 
 fn owner(k: u8) -> LockOwner {
     LockOwner::new([k; 32])
@@ -466,8 +484,18 @@ fn pol_coq(p: &ConfirmationsPolicy) -> String {
 }
 
 impl H {
-    fn new(seed: u64, stream: u64) -> H {
+    fn new(seed: u64, stream: u64, nu63: bool) -> H {
+        let act = Some(BlockHeight::from_u32(ACTIVATION));
+        let net = if nu63 {
+            LocalNetwork { nu6: act, nu6_1: act, nu6_2: act, nu6_3: act, ..TestBuilder::<(), ()>::DEFAULT_NETWORK }
+        } else {
+            TestBuilder::<(), ()>::DEFAULT_NETWORK
+        };
         let mut st = TestBuilder::new()
+            .with_network(net)
+            .with_anchor_retention_interval(zcash_protocol::zip318::AnchorBucketInterval::custom(
+                NonZeroU32::new(GRID).unwrap(),
+            ))
             .with_data_store_factory(TestDbFactory::default())
             .with_block_cache(BlockCache::new())
             .with_account_from_sapling_activation(BlockHash([0; 32]))
@@ -486,6 +514,7 @@ impl H {
             pending: vec![],
             stats: BTreeMap::new(),
             ncases: 0,
+            nu63,
         }
     }
 
@@ -498,6 +527,17 @@ impl H {
     }
 
     fn value(&mut self) -> u64 {
+        if self.nu63 && self.rng.chance(2, 3) {
+            // around the ZIP 318 canonical denominations 0.01 / 0.02 / 0.05 ZEC
+            return match self.rng.below(6) {
+                0 => 1_000_000,
+                1 => 1_015_000,
+                2 => 1_020_000,
+                3 => 2_030_000,
+                4 => self.rng.range(1_000_000, 6_000_000),
+                _ => self.rng.range(900_000, 2_500_000),
+            };
+        }
         match self.rng.below(10) {
             0 => 5000,
             1 => 5001,
@@ -552,7 +592,14 @@ impl H {
         };
         let internal = matches!(at, AddressType::Internal);
         let ufvk = self.accts[a].usk.to_unified_full_viewing_key();
-        if self.rng.chance(3, 5) {
+        if self.nu63 && self.rng.chance(1, 5) {
+            let fvk = zcash_client_backend::data_api::testing::IronwoodFvk(ufvk.orchard().unwrap().clone());
+            let outs: Vec<_> =
+                vals.iter().map(|v| FakeCompactOutput::new(fvk.clone(), at, Zatoshis::from_u64(*v).unwrap())).collect();
+            let (h, _, _nfs) = self.st.generate_next_block_multi(&outs);
+            self.after_block(h, scan_now);
+            self.bump("op_receive_ironwood");
+        } else if self.rng.chance(if self.nu63 { 1 } else { 3 }, 5) {
             let fvk = ufvk.sapling().unwrap().clone();
             let outs: Vec<_> =
                 vals.iter().map(|v| FakeCompactOutput::new(fvk.clone(), at, Zatoshis::from_u64(*v).unwrap())).collect();
@@ -625,12 +672,15 @@ impl H {
             if let Ok(ns) = self.st.wallet().select_spendable_notes(
                 a,
                 TargetValue::AllFunds(MaxSpendMode::MaxSpendable),
-                &[ShieldedPool::Sapling, ShieldedPool::Orchard],
+                &[ShieldedPool::Sapling, ShieldedPool::Orchard, ShieldedPool::Ironwood],
                 target,
                 ConfirmationsPolicy::MIN,
                 &[],
                 LockFilter::Unfiltered,
             ) {
+                for n in ns.ironwood().iter() {
+                    self.ids.insert(nid(n.internal_note_id()), *n.internal_note_id());
+                }
                 for n in ns.sapling().iter() {
                     self.ids.insert(nid(n.internal_note_id()), *n.internal_note_id());
                 }
@@ -687,6 +737,9 @@ impl H {
         };
         let mut a = self.rng.below(2) as usize;
         let mut pool = if self.rng.bool() { ShieldedPool::Sapling } else { ShieldedPool::Orchard };
+        if self.nu63 && self.rng.chance(1, 6) {
+            pool = ShieldedPool::Ironwood;
+        }
         if !d.rows.is_empty() && self.rng.chance(3, 4) {
             let r = &d.rows[self.rng.below(d.rows.len() as u64) as usize];
             if r.acct < 2 {
@@ -726,6 +779,7 @@ impl H {
                     .iter()
                     .map(|n| nid(n.internal_note_id()).1)
                     .chain(ns.orchard().iter().map(|n| nid(n.internal_note_id()).1))
+                    .chain(ns.ironwood().iter().map(|n| nid(n.internal_note_id()).1))
                     .collect();
                 v.sort();
                 ok(list(v.iter().map(|x| x.to_string())))
@@ -776,7 +830,20 @@ impl H {
         let acct = self.accts[a].id;
         let to_usk = UnifiedSpendingKey::from_seed(self.st.network(), &[9u8; 32], zip32::AccountId::ZERO).unwrap();
         let to_ufvk = to_usk.to_unified_full_viewing_key();
-        let kind = if force_sapling_only { 0 } else { self.rng.below(4) };
+        if force_sapling_only {
+            // the account holding the most unspent, unlocked Sapling value
+            let v = |acct: i64| -> i64 {
+                d.rows
+                    .iter()
+                    .filter(|r| r.acct == acct && r.pool == ShieldedPool::Sapling && r.spenders.is_empty() && r.lock.is_none() && r.value > 5000)
+                    .map(|r| r.value)
+                    .sum()
+            };
+            a = if v(0) >= v(1) { 0 } else { 1 };
+        }
+        let acct = self.accts[a].id;
+        let canon_pay = self.nu63 && !force_sapling_only && self.rng.chance(3, 5);
+        let kind = if force_sapling_only { 0 } else if canon_pay { if self.rng.chance(5, 6) { 2 } else { 0 } } else { self.rng.below(4) };
         let (addr, orchard_out): (Address, bool) = match kind {
             0 | 1 => (Address::Sapling(to_ufvk.sapling().unwrap().default_address().1), false),
             2 => (Address::Unified(to_ufvk.default_address(UnifiedAddressRequest::AllAvailableKeys).unwrap().0), true),
@@ -787,7 +854,7 @@ impl H {
                 false,
             ),
         };
-        let npay = if self.rng.chance(1, 4) { 2 } else { 1 };
+        let npay = if !force_sapling_only && !canon_pay && self.rng.chance(1, 4) { 2 } else { 1 };
         let mut pays = vec![];
         let mut total = 0u64;
         for _ in 0..npay {
@@ -817,6 +884,17 @@ impl H {
                 _ => self.rng.range(1, (mine.max(2) as u64) / npay + 1),
             })
             .max(1);
+            let amt = if force_sapling_only { self.rng.range(1, 12000) } else { amt };
+            let amt = if canon_pay {
+                match self.rng.below(8) {
+                    0 => 2_000_000,
+                    1 => 1_000_001,
+                    2 => 5_000_000,
+                    _ => 1_000_000,
+                }
+            } else {
+                amt
+            };
             total += amt;
             pays.push(Payment::without_memo(addr.to_zcash_address(self.st.network()), Zatoshis::from_u64(amt).unwrap()));
         }
@@ -838,11 +916,49 @@ impl H {
         let pools: Vec<ShieldedPool> = if force_sapling_only {
             vec![ShieldedPool::Sapling]
         } else {
-            match self.rng.below(5) {
+            match self.rng.below(if self.nu63 { 8 } else { 5 }) {
                 0 => vec![ShieldedPool::Sapling],
                 1 => vec![ShieldedPool::Orchard],
+                5 => vec![ShieldedPool::Ironwood, ShieldedPool::Orchard],
+                6 | 7 => vec![ShieldedPool::Sapling, ShieldedPool::Orchard, ShieldedPool::Ironwood],
                 _ => vec![ShieldedPool::Sapling, ShieldedPool::Orchard],
             }
+        };
+        // what the wallet reports about the bucketed (canonical ZIP 318 crossing) attempt
+        let canon = if self.nu63 {
+            let interval = zcash_protocol::zip318::AnchorBucketInterval::custom(NonZeroU32::new(GRID).unwrap());
+            let ta = self.st.wallet().get_target_and_anchor_heights(pol.trusted()).unwrap();
+            let mut boundary = 0u32;
+            let mut computable = false;
+            let mut sel_anchor: Option<u32> = None;
+            let mut fee: Option<u64> = None;
+            if let Some((t, _)) = ta {
+                fee = zcash_client_backend::fees::canonical_crossing_fee(self.st.network(), BlockHeight::from(t))
+                    .ok()
+                    .map(u64::from);
+                if let Some(bp) = pol.bucketed(interval, t, BlockHeight::from_u32(ACTIVATION)) {
+                    let b = bp.anchor_height(t);
+                    boundary = u32::from(b);
+                    computable = self.st.wallet().anchor_computable(ShieldedPool::Orchard, b).unwrap_or(false);
+                    sel_anchor = self
+                        .st
+                        .wallet()
+                        .get_target_and_anchor_heights(bp.trusted())
+                        .unwrap()
+                        .map(|(_, a)| u32::from(a));
+                }
+            }
+            format!(
+                "(Some (CI {} {} {} {} {} {}))",
+                GRID,
+                ACTIVATION,
+                boundary,
+                boolc(computable),
+                opt(sel_anchor.map(|x| x.to_string())),
+                opt(fee.map(|x| x.to_string()))
+            )
+        } else {
+            "None".to_string()
         };
         let sp = SpendPolicy::shielded_pools(pools.clone()).with_locked_input_policy(lip.clone());
         let (mode, k) = if force_sapling_only {
@@ -857,7 +973,7 @@ impl H {
         };
         let multi = !force_sapling_only && self.rng.chance(1, 3);
         let change_pool =
-            if force_sapling_only || self.rng.bool() { ShieldedPool::Sapling } else { ShieldedPool::Orchard };
+            if force_sapling_only || (!canon_pay && self.rng.bool()) { ShieldedPool::Sapling } else { ShieldedPool::Orchard };
         let sel = GreedyInputSelector::<TestDb>::new();
         let net = self.st.network().clone();
         let (res, log, strat) = if multi {
@@ -926,15 +1042,15 @@ impl H {
                         .map(|si| si.notes().iter().map(|n| u64::from(n.note().value())).sum())
                         .unwrap_or(0);
                     let pay: u64 = s.transaction_request().total().unwrap().map(u64::from).unwrap_or(0);
-                    let ch: u64 = s.balance().proposed_change().iter().map(|c| u64::from(c.value())).sum();
                     format!(
-                        "(Step {} {} {} {} {} {})",
+                        "(Step {} {} {} {} {} {} {})",
                         list(ins.iter().map(pid_coq)),
                         inval,
                         s.transparent_inputs().len(),
                         pay,
-                        ch,
-                        u64::from(s.balance().fee_required())
+                        changes_coq(s.balance().proposed_change()),
+                        u64::from(s.balance().fee_required()),
+                        opt(s.anchor_height().map(|a| u32::from(a).to_string()))
                     )
                 });
                 ok(list(steps))
@@ -965,16 +1081,18 @@ impl H {
             Some(l) => format!("(Some ({}, {}))", l.owner().as_bytes()[0], l.for_blocks()),
         };
         case(format!(
-            "CPropose {} {} {} {} {} {} {} {} {} {} {}",
+            "CPropose {} {} {} {} {} {} {} {} {} {} {} {} {}",
             d.coq_db(),
             env,
             a,
             total,
+            boolc(npay == 1),
             boolc(orchard_out),
             list(pools.iter().map(|p| pool_name(*p).to_string())),
             pol_coq(&pol),
             lip_coq(&lip),
             lockc,
+            canon,
             list(log.into_iter()),
             obs
         ));
@@ -1064,7 +1182,7 @@ impl H {
         if let Some((a, p)) = self.q_propose(d, true, lock) {
             let usk = self.accts[a].usk.clone();
             // one pending transaction in three never expires (expiry height 0)
-            let never = self.rng.chance(1, 3);
+            let never = self.rng.chance(1, 2);
             let net = self.st.network().clone();
             let r = catch(|| {
                 zcash_client_backend::data_api::wallet::create_proposed_transactions::<_, _, Infallible, _, Infallible, _>(
@@ -1180,6 +1298,7 @@ impl H {
                 0..=5 => self.op_receive(scan_now),
                 6..=8 => {
                     let n = match self.rng.below(7) {
+                        _ if self.nu63 && self.rng.bool() => 3 + self.rng.below(GRID as u64 * 2) as usize,
                         0 => 10,
                         1 => 41,
                         6 => 55,
@@ -1228,7 +1347,7 @@ fn main() {
     let mut stats: BTreeMap<String, u64> = BTreeMap::new();
     let mut total = 0usize;
     for i in 0..nhist {
-        let mut h = H::new(a.seed, i as u64 + if a.search { 1000 } else { 0 });
+        let mut h = H::new(a.seed, i as u64 + if a.search { 1000 } else { 0 }, i % 2 == 1);
         let r = catch(|| h.history(nops, nsel, nprop));
         if r.is_none() {
             *stats.entry("history_aborted_by_harness_panic".into()).or_insert(0) += 1;
